@@ -73,6 +73,11 @@ CHECKS['C14'] = dict(engine='CH', category='model_checking', design='4/C14',
    text='For every table-model join of the family: exactly one apply-predictor step whose input is the fetched table; the model arguments are exactly the top-level `model.col = const` conjuncts of WHERE, which are not sent to the integration and are neutralised in the outer query, while non-top-level model conditions keep filtering; no table column becomes a model argument; every filter in the table fetch is a top-level conjunct on that table; USING options reach the model with lower-cased keys; ON equalities between model and table columns become the column mapping for both join orders.',
    note='Trusted: CrossHair path bookkeeping; oracle in harness/c14lib.py written from the property text. One table x one model; deeper formulas and more tables are outside this check (C09/C10 cover their structure).')
 
+CHECKS['C17'] = dict(engine='CH', category='model_checking', design='4/C17',
+   technique='CrossHair (z3) path-splitting over a tree family (corpus + one sentence per production + unsupported shapes) x 7 dialect names, and over vocabularies of type names / operators / function names / arities; leaves run the real renderer natively',
+   text='For every tree of the family and every dialect name: get_string and get_exec_params with fallback never raise and return a str; with fallback disabled they return or raise only SQLAlchemyError/NotImplementedError; the tree prints and dumps identically before and after. The same contract holds for TypeCast/CREATE TABLE with every type name of the vocabulary (known, unknown, malformed), every binary/unary operator of the vocabulary (known, unknown, with tuple operands), function calls of arity 0..3 with DISTINCT / FROM-argument, and identifiers/aliases with 1..4 parts.',
+   note='Trusted: CrossHair path bookkeeping; SQLAlchemy. Finite-domain choices only: symbolic strings through SQLAlchemy were measured to be out of reach for CrossHair (about 3 s solver time per path). Trees outside the family / names outside the vocabularies are outside the claim.')
+
 NA_PENDING = {}
 
 
